@@ -29,6 +29,22 @@ def rule_adjusted_location(chk: Check, ir, rule_id: str = "S5-adjusted-location"
     # hand-adjusted locations: `locs["col_offset"] += n` skips n characters at the start of the span.  That is right only
     # where the span starts with a token of exactly that width which is *not* part of the value being located.
     sub = parse_py(repo.SUBHEADER)
+    # a location mapping may be adjusted only by the function that owns it (its own **kwargs are a fresh dict per call); a helper
+    # that writes into a mapping it was *passed* changes the caller's mapping as well, and every node the caller locates with it
+    for fn in ast.walk(sub):
+        if not isinstance(fn, ast.FunctionDef):
+            continue
+        plain = {a.arg for a in fn.args.posonlyargs + fn.args.args + fn.args.kwonlyargs} - {"self", "cls"}
+        for st in ast.walk(fn):
+            tg = st.targets if isinstance(st, ast.Assign) else ([st.target] if isinstance(st, ast.AugAssign) else [])
+            for t in tg:
+                if isinstance(t, ast.Subscript) and isinstance(t.value, ast.Name) and t.value.id in plain and \
+                        isinstance(t.slice, ast.Constant) and t.slice.value in ("lineno", "col_offset", "end_lineno", "end_col_offset"):
+                    chk.count(rule_id)
+                    chk.fail(rule_id, f"{fn.name}:{norm_stmt(st)}:shared-mapping", f"{repo.SUBHEADER}:{st.lineno}",
+                             f"`{norm_stmt(st)}` writes into the location mapping `{t.value.id}` that `{fn.name}` received as an ordinary "
+                             f"argument: the caller's own `**{t.value.id}` is the same object, so the node the caller builds is shifted too "
+                             f"(`pre@(x)` is no longer adjacent to its prefix)")
     for fn in ast.walk(sub):
         if not isinstance(fn, ast.FunctionDef):
             continue
@@ -101,6 +117,41 @@ def rule_s6(chk: Check):
         raise AnalysisError("S6 self-probe failed")
 
 
+def rule_s3_recursion(chk: Check, ix):
+    """`set_expr_context` may pass a context on only to what *inherits* it: the elements of a Tuple/List and the value of a
+    Starred.  The object of an Attribute and the container/index of a Subscript are reads whatever the context of the whole."""
+    from .. import asdl
+    f = ix.get("Parser.set_expr_context")
+    chk.count("S3-ctx")
+    bad = []
+    for n in ast.walk(f.node):
+        # recursive calls / ctx stores that reach into a child
+        exprs = []
+        if isinstance(n, ast.Call) and isinstance(n.func, ast.Attribute) and n.func.attr == "set_expr_context" and n.args:
+            exprs.append(n.args[0])
+        if isinstance(n, ast.Assign):
+            for t in n.targets:
+                if isinstance(t, ast.Attribute) and t.attr == "ctx" and isinstance(t.value, ast.Attribute):
+                    exprs.append(t.value)
+        for e in exprs:
+            if not isinstance(e, ast.Attribute):
+                continue
+            field = e.attr
+            # classes under whose isinstance guard the access sits
+            guards = [g for g in ast.walk(f.node) if isinstance(g, ast.If) and any(e is x for b in g.body for x in ast.walk(b))]
+            classes = set()
+            for g in guards:
+                for c in ast.walk(g.test):
+                    if isinstance(c, ast.Attribute) and norm_stmt(c.value) == "ast":
+                        classes.add(c.attr)
+            for cls in classes or {"?"}:
+                if field not in asdl.CTX_CHILDREN.get(cls, ()):
+                    bad.append(f"{cls}.{field}")
+    chk.require(not bad, "S3-ctx", "Parser.set_expr_context:recursion", f.where,
+                f"the context is also pushed into {sorted(set(bad))}: those children are evaluated (Load) whatever the context of the whole "
+                f"— `(a.b) = 1` would store into `a`, and compile() refuses the tree (expression must have Load context)")
+
+
 def rule_s6_memo(chk: Check, ir, tr):
     """In-place context rewriting (`set_expr_context`) of the result of a *memoised* rule changes the cached node: every later
     cache hit — also from an alternative that wanted the node as a value — sees the rewritten context.  Harmless only when the
@@ -158,6 +209,12 @@ def run(chk: Check):
     rule_s5(chk, ir)
     rule_s6(chk)
     rule_s6_memo(chk, ir, tr)
+    from ..pyflow import Index
+    rule_s3_recursion(chk, Index())
+    from .. import macros
+    from .c07 import rule_m1
+    rule_m1(chk, Index())          # spans of the synthetic raw-capture tokens end up as node spans
+    macros.rule_m5(chk, Index())
     from .c10 import rule_f4
     rule_f4(chk, ir, tr)   # FormattedValue.conversion must be one of -1, 115, 114, 97 (compile() refuses anything else)
     from .c01 import rule_result_span
